@@ -206,6 +206,32 @@ def shard(ctx):
                 rt_meta.append((c2, "respelled"))
             except TypeError:
                 pass
+    # m.room.message with unknown msgtypes at the top level and / or inside m.new_content, combined with
+    # mentions and relations (fields that the custom-msgtype path must not keep twice)
+    for _ in range((160 if ctx.tier == "quick" else 6000) // ctx.nshards + 1):
+        def body(custom):
+            c = {"msgtype": rng.choice(["org.example.custom", "m.future", "x"]) if custom else rng.choice(["m.text", "m.notice", "m.emote"]),
+                 "body": rng.choice(["b", "* edited", ""])}
+            if custom and rng.random() < 0.5:
+                c["org.example.extra"] = {"k": [1, 2]}
+            if rng.random() < 0.6:
+                c["m.mentions"] = rng.choice([{}, {"user_ids": ["@a:example.org"]}, {"room": True}])
+            return c
+        c = body(rng.random() < 0.6)
+        kind_rel = rng.choice(["none", "replace", "replace", "thread", "reply"])
+        if kind_rel == "replace":
+            c["m.relates_to"] = {"rel_type": "m.replace", "event_id": "$orig:example.org"}
+            c["m.new_content"] = body(rng.random() < 0.6)
+        elif kind_rel == "thread":
+            c["m.relates_to"] = {"rel_type": "m.thread", "event_id": "$root:example.org", "is_falling_back": True,
+                                 "m.in_reply_to": {"event_id": "$root:example.org"}}
+        elif kind_rel == "reply":
+            c["m.relates_to"] = {"m.in_reply_to": {"event_id": "$r:example.org"}}
+        for spelling in ("plain", "permuted"):
+            rt_cmds.append({"op": "content_roundtrip", "kind": "message_like", "ev_type": "m.room.message",
+                            "content": fmt(c if spelling == "plain" else permuted(rng, c))})
+            rt_meta.append((c, spelling))
+        rep.count("custom_msgtype_contents")
     # m.room.redaction in every format, with `redacts` at the top level, inside content, or both
     if ctx.shard == 0:
         for fmtk in ("full", "sync"):
